@@ -1269,6 +1269,10 @@ def run_real(case):
     res.post = None
     token, loaded = parse_outcome(case["body"], real.cfg)
     res.parse_error = token == "E"
+    if case["body"] == "":
+        # `not data`: the dispatcher raises inside its parse try before calling loads (which returns None for "") — the model is
+        # told that the body is empty (`marshaledDispatchBody s true _`), not what loads would have made of it
+        token = "Z"
     res.loaded = loaded
     res.observed = observe_opaque(desc, loaded) if token != "E" else {}
     k, v = real.dispatch(case["body"])
@@ -1775,7 +1779,7 @@ def _code_ok(want, code):
 
 def _rfc_rejects(body):
     import servercases_ext as sx
-    return body != "" and sx.rfc8259_accepts(body) is False
+    return sx.rfc8259_accepts(body) is False
 
 
 def monitor_c05(r):
@@ -1791,10 +1795,11 @@ def monitor_c05(r):
     if resp is None:
         return None
     # "Malformed JSON ... texts rejected by RFC 8259": judged by the recogniser of the harness (servercases_ext.rfc8259_accepts),
-    # not by what the parser under test made of the body.  The empty body is not a text at all: "no request data".
+    # not by what the parser under test made of the body.  The empty body is such a text (`ws value ws` needs a value);
+    # bodies that *parse* to a falsy value (null, [], {}, 0, false, "") are "no request data" (-32600, expected_entries).
     rejected = r.parse_error
     why = "the parser/translator rejects the body"
-    if not rejected and r.case["body"] != "":
+    if not rejected:
         import servercases_ext as sx
         if sx.rfc8259_accepts(r.case["body"]) is False:
             rejected = True
